@@ -396,7 +396,10 @@ def dom_equal(sc):
     if sc["opts"].get("no_reorder"):
         if (r.get("permuted") and "pseed" not in r) or (s.get("permuted") and "pseed" not in s):
             return False                                    # replay of an old scenario: permutation seed unknown
-        return written_mesh(r)[:2] == written_mesh(s)[:2]   # without reordering the stored order itself has to agree
+        # without reordering the stored order itself has to agree (points one by one, cells one by one; a cell is its set of
+        # corners, whichever corner it is listed from)
+        (pr_, cr_), (ps_, cs_) = written_mesh(r)[:2], written_mesh(s)[:2]
+        return pr_ == ps_ and [(t, sorted(c)) for t, c in cr_] == [(t, sorted(c)) for t, c in cs_]
     return True
 
 
